@@ -219,6 +219,7 @@ COMMENTS = [
     ("x: 1 y: 2 z: 3", {"x": "1", "y": "2", "z": "3"}), ("test-delimiter: a,b;c", {"test-delimiter": "a,b;c"}), ("id: first-path", {"id": "first-path"}),
     ("weird!chars? id: q!r", {"id": "q!r"}), ("this is id: my id and name: my name.", {"id": "my id and", "name": "my name."}),
     ("unmatched-mode: keep logic-mode: OR", {"unmatched-mode": "keep", "logic-mode": "OR"}),
+    ("prénom: José größe: 5 id: ü1", {"prénom": "José", "größe": "5", "id": "ü1"}), ("名前: テスト return-mode: no-matches", {"名前": "テスト", "return-mode": "no-matches"}),
 ]
 COMMENTS_PARTIAL = [
     # only the listed keys are checked (the stand-alone colon leaves an unnamed entry that the docs do not specify)
